@@ -23,7 +23,8 @@ impl Case {
 
 pub fn to_json(c: &Case) -> serde_json::Value {
     let b = c.built();
-    json!({"entropy": c.entropy, "cfg": c.cfg, "program": b.prog.text(), "stats": b.stats})
+    // (`built` is the generated program itself: a stored case does not depend on later changes of the generator)
+    json!({"entropy": c.entropy, "cfg": c.cfg, "program": b.prog.text(), "stats": b.stats, "built": b})
 }
 
 /// compare model labels with the symbol table and the VICE symbol text
@@ -101,7 +102,10 @@ pub fn check_symbols(m: &ModelOut, a: &Assembled) -> Result<(), (String, String)
 }
 
 pub fn prop(c: &Case, log: &mut CaseLog) -> Verdict {
-    let b = c.built();
+    prop_built(&c.built(), log)
+}
+
+pub fn prop_built(b: &Built, log: &mut CaseLog) -> Verdict {
     let (proj, _) = b.prog.render();
     let a = match guarded(|| assemble(&proj, AsmOptions::default())) {
         Ok(a) => a,
@@ -184,7 +188,8 @@ pub fn run_check(ctx: &mut Ctx) {
     let n = ctx.tier.pick(10_000, 300_000);
     ctx.campaign("clean-domain", n, strategy(GenCfg::c02(), 400), prop, to_json);
 
-    // feature campaign: forward reference to a definition that shadows an outer one (recorded finding)
+    // small programs with a forward reference to a definition that shadows an outer one (the trigger of a finding that
+    // has been repaired; part of the clean domain as well, but only small programs leave the stale binding alone)
     let mut cfg = GenCfg::c02();
     cfg.shadow_forward_ref = true;
     // the stale binding only survives when no other forward reference forces a further pass: small programs
@@ -200,6 +205,13 @@ pub fn run_check(ctx: &mut Ctx) {
 }
 
 pub fn replay(ctx: &mut Ctx, case: &serde_json::Value) {
+    if let Some(b) = case.get("built") {
+        match serde_json::from_value::<Built>(b.clone()) {
+            Ok(b) => ctx.replay_one(&b, prop_built, case.clone()),
+            Err(e) => ctx.health(false, format!("replay case does not deserialize: {}", e)),
+        }
+        return;
+    }
     let c: Case = match serde_json::from_value(json!({"entropy": case["entropy"], "cfg": case["cfg"]})) {
         Ok(c) => c,
         Err(e) => {
